@@ -211,6 +211,15 @@ def rule_split(ctx: Ctx, repo: Repo) -> None:
     cs = [c for c in calls_in(at.node) if isinstance(c.func, ast.Attribute) and c.func.attr == "add_needed_import"]
     ok = len(cs) == 1 and [norm(a) for a in cs[0].args[1:]] == ["'typing'", "'TYPE_CHECKING'"]
     ctx.check(ok, "R-C16.4", at.fq, "`from typing import TYPE_CHECKING` is added", construct="; ".join(norm(c) for c in cs))
+    g = cfg_of(at)
+    for c in cs:
+        n = g.node_of(c)
+        tr_calls = g.find_calls(lambda x: isinstance(x.func, ast.Attribute) and x.func.attr == "transform_module")
+        uncond = n is not None and not g.guards(n.id) and g.dominates(n.id, g.exit) and all(g.dominates(n.id, m.id) for m, _ in tr_calls) and bool(tr_calls)
+        ctx.check(uncond, "R-C16.4", at.fq,
+                  "the TYPE_CHECKING import is requested on every path (libcst's AddImportsVisitor puts it into the leading import block and does not duplicate it; "
+                  "skipping it because the name is imported somewhere else, e.g. inside a try block further down, leaves the new block above the binding)",
+                  construct=f"guards {[(norm(a.ast), p) for a, p in g.guards(n.id)] if n else '?'}")
 
 
 def rule_cli(ctx: Ctx, repo: Repo) -> None:
